@@ -47,7 +47,7 @@ for m in rk.method_list:
     for row, p in zip(ti, r.order):
         for k in range(p + 1):
             if abs(row[k] * math.factorial(k) - 1) > 1e-12: bad.append((m, "ti", k, float(row[k])))
-for o in range(0, 13):
+for o in range(0, 31):
     cf = rk.TaylorExpansion(o).coeff
     import math
     if len(cf) != o + 1 or any(abs(cf[k] * math.factorial(k) - 1) > 1e-14 for k in range(o + 1)): bad.append(("Taylor", o, None, 0))
@@ -177,5 +177,5 @@ def run(ctx):
     if not samples and tabs:
         samples.append({"method": tabs[0]["name"], "a": [[str(x) for x in r] for r in tabs[0]["a"]]})
     return {"evaluations": ev, "distinct_nontrivial": nontriv,
-            "rule": "every entry of every tableau (10 methods), every ti coefficient and Taylor coefficient for orders 0..12 compared between implementation and generated/model values; a method counts as non-trivial once all its entries matched; exhaustive over the shipped methods",
+            "rule": "every entry of every tableau (10 methods), every ti coefficient and Taylor coefficient for orders 0..30 compared between implementation and generated/model values; a method counts as non-trivial once all its entries matched; exhaustive over the shipped methods",
             "samples": samples[:3], "exhaustive": True}
